@@ -188,9 +188,10 @@ ensures
 @*/
 
 // The same body once more, for the responder half of C14 alone ("a node answers every request about a block it holds with
-// ... shreds with the leader's signature"): what is handed to the blockstore, and later served to repairing nodes and copied
-// by deshred() onto every rebuilt shred, carries a signature that was CHECKED.  Kept apart from the contract above so that
-// this obligation - a recorded known finding (F22) - does not take the function's other obligations with it.
+// ... shreds with the leader's signature").  The blockstore stores every shred of a slice with the signature of the shred
+// that populated the slice's cache entry (unit blockdata: C14.stored_shred_carries_the_verified_signature_of_its_slice,
+// finding F22); what this function owes is that THAT shred's signature was checked: without a cached commitment nothing
+// lets a shred skip the check.
 /*@ extract src/consensus.rs :: impl Alpenglow<A, D, T>/fn handle_disseminator_shred
 as handle_disseminator_shred_signature_of_stored_shreds
 props C14
@@ -200,8 +201,8 @@ sig `&self` => `&mut self`
 sig `std::io::Result<()>` => `Result<(), IoError>`
 rewrite[R3b] `self.disseminator.forward(` => `self.disseminator.verif_forward(`
 before `let res = self`
-        // [C14.stored_and_served_shreds_carry_a_checked_leader_signature]
-        assert(sig_ok(validated.spec_shred(), leader_pk));
+        // [C14.shred_that_populates_the_commitment_cache_is_verified]
+        assert(cached is None ==> sig_ok(validated.spec_shred(), leader_pk));
 @*/
 
 // Canary: the real body under a false contract (claims nothing is ever forwarded); MUST fail.
